@@ -174,12 +174,24 @@ struct Stepper {
         for (int tries = 0; tries < 60000; ++tries) {   // up to 30 s: loopback delivery is deferred work for the kernel and can lag under load
             int avail = 0;
             ioctl(cl.server_fd, FIONREAD, &avail);
-            bool hup = false;
-            if (cl.eof_pending) { pollfd p{cl.server_fd, POLLIN | POLLRDHUP, 0}; poll(&p, 1, 0); hup = p.revents & (POLLRDHUP | POLLHUP); }
+            bool hup = false, reset = false;
+            if (cl.eof_pending) { pollfd p{cl.server_fd, POLLIN | POLLRDHUP, 0}; poll(&p, 1, 0); hup = p.revents & (POLLRDHUP | POLLHUP); reset = p.revents & POLLERR; }
             if (static_cast<std::size_t>(avail) >= cl.pending_tx && (!cl.eof_pending || hup)) return;
+            // a client that left with a reset (SO_LINGER 0) discards whatever it had not transmitted yet: once the reset has
+            // arrived nothing more will, however many bytes the client had written
+            if (cl.eof_pending && hup && reset) return;
             ::usleep(500);
         }
-        c.violation("harness:relay:loopback-delivery-timeout", J().kv("step", step).str());
+        {
+            int avail = 0;
+            ioctl(cl.server_fd, FIONREAD, &avail);
+            pollfd p{cl.server_fd, POLLIN | POLLRDHUP, 0};
+            poll(&p, 1, 0);
+            int outq = -1;
+            if (cl.fd >= 0) ioctl(cl.fd, TIOCOUTQ, &outq);
+            c.violation("harness:relay:loopback-delivery-timeout", J().kv("step", step).kv("pending_tx", cl.pending_tx).kv("available", avail).kv("eof_pending", cl.eof_pending).kv("revents", p.revents)
+                            .kv("client_fd", cl.fd).kv("client_outq", outq).kv("closed_by_client", cl.closed_by_client).kv("session_closing", cl.session ? cl.session->closing : true).str());
+        }
         harness_failed = true;
     }
 
